@@ -11,6 +11,12 @@ column-table codec `mc.ref.tle_codec`:
 * offgrid  orbits whose elements lie between printable values: written lines are 69 columns,
            checksummed, correctly rounded and parse back to the elements within half a printed unit;
 * wargs    the writer's identification arguments / defaults (name, norad_id, cospar_id);
+* epochs   (real IERS tables configured) epoch round trips in both halves of years with a 30 June leap
+           second, a 31 December leap second, and none;
+* hist     explicit-state part: every short history on ONE Tle object (built by the constructor or yielded
+           by from_string) of {tle.orbit(), in-place edits of a returned orbit, write it back, round trip,
+           inspect}, each from the pristine library state: the Tle never changes, every orbit() call
+           returns a new object equal to the parsed fields, the round trip always reproduces the text;
 * fs       every text assembled from <= 3 entries (valid 2-line / 3-line, bad checksum, bad length,
            comment, blank): `Tle.from_string` yields exactly the valid entries, in order.
 """
@@ -39,8 +45,8 @@ RULE = (
     "offgrid: one case per (field, grid value, offset). wargs: one case per (orbit attributes, keyword set). fs: one case per (sequence of <= 3 entry kinds, error mode)"
 )
 BOUNDS = {
-    "quick": "rt: <= 3 deviating fields; corruptions of every TLE with <= 1 deviating field; offgrid: all single-field offsets; wargs: 2 orbits x 7 argument sets; fs: all sequences of <= 3 of 10 entry kinds x 3 modes",
-    "thorough": "rt: <= 4 deviating fields; corruptions of every TLE with <= 2 deviating fields; offgrid and fs as quick",
+    "quick": "rt: <= 3 deviating fields; corruptions of every TLE with <= 1 deviating field; offgrid: all single-field offsets; wargs: 2 orbits x 7 argument sets; fs: all sequences of <= 3 of 11 entry kinds x 3 modes; epochs: 23 years x 8 days under real IERS tables; hist: <= 4 operations (1 168 histories)",
+    "thorough": "rt: <= 4 deviating fields; corruptions of every TLE with <= 2 deviating fields; offgrid, fs, epochs as quick; hist: <= 5 operations (7 942 histories)",
 }
 ASSUMPTIONS = [
     "the format is the NORAD/CelesTrak column table reproduced in mc/ref/tle_codec.py; checksum counts digits and '-' only",
@@ -59,16 +65,18 @@ NOT_COVERED = (
 # alphabets: (text, class label, canonical spelling?)   index 0 = base (ISS 25544, 2016-05-03)
 
 ANG = [("  0.0000", "zero", True), ("180.0000", "180", True), ("359.9999", "max", True)]
-EXPF = [
-    (" 00000-0", "zero", True),
-    (" 00000+0", "zero-plus-exponent", False),
-    (" 12345-5", "plain", True),
-    ("-12345-5", "negative", True),
-    (" 99999-1", "max-mantissa", True),
-    (" 10000+0", "exponent+0", True),
-    (" 12345+1", "exponent+1", True),
-    (" 10000-9", "exponent-9", True),
-]
+def _expf():
+    """Implied-decimal fields: zero spellings, mantissa sign {blank, +, -} x exponent {-5, -0, +0, +1}, extreme magnitudes."""
+    out = [(" 00000-0", "zero", True), (" 00000+0", "zero-plus-exponent", False), ("+00000-0", "zero-explicit-plus", False)]
+    for sign, sname, scanon in ((" ", "pos", True), ("+", "explicit-plus", False), ("-", "neg", True)):
+        for ex, ename, ecanon in (("-5", "exp-", True), ("-0", "exp-0", False), ("+0", "exp+0", True), ("+1", "exp+1", True)):
+            out.append((sign + "12345" + ex, f"{sname}/{ename}", scanon and ecanon))
+    out += [(" 99999-1", "max-mantissa", True), (" 10000-9", "exponent-9", True), ("-25000+0", "neg/exp+0", True),
+            (" 01234-4", "non-normalised", False)]
+    return out
+
+
+EXPF = _expf()
 FIELDS = [
     ("satnum", [("25544", "plain", True), ("00001", "min", True), ("99999", "max", True)]),
     ("desig", [("98067A", "plain", True), ("", "empty", True), ("57001ABC", "year57-full", True), ("56999ZZZ", "year56-full", True)]),
@@ -76,7 +84,7 @@ FIELDS = [
                ("00001.00000000", "2000-first", True), ("56366.50000000", "2056-day366", True)]),
     ("ndot", [(" .00003442", "plain", True), (" .00000000", "zero", True), ("-.00001524", "negative", True),
               (" .99999999", "max", True), ("-.00000001", "negative-min", True), ("+.00001524", "explicit-plus", False)]),
-    ("nddot", [EXPF[0]] + EXPF[1:] + [("+12345-5", "explicit-plus", False), (" 01234-4", "non-normalised", False)]),
+    ("nddot", EXPF),
     ("bstar", [(" 58526-4", "plain", True)] + EXPF),
     ("elnum", [("999", "3-digits", True), ("0", "zero", True), ("7", "1-digit", True), ("1000", "4-digits", True),
                ("9999", "4-digits", True), ("0007", "zero-padded", False)]),
@@ -120,11 +128,16 @@ def count_tuples(bound):
 # units
 
 
+CFG = {"eop": "pass"}  # zero EOP (library default policy "pass"): everything but the parts below
+CFG_REAL = {"eop": "real"}  # real IERS tables (tests/data/pole: TAI-UTC, UT1-UTC ...): epoch round trips around leap seconds
+CFG_HIST = {"eop": "pass", "part": "hist"}  # own worker group: these workers never execute Tle code themselves
+
+
 def units(tier, seed):
-    cfg = {"eop": "pass"}
+    cfg = CFG
     u = []
     rt_bound, co_bound = (3, 1) if tier == "quick" else (4, 2)
-    parts = 32 if tier == "quick" else 128
+    parts = 48 if tier == "quick" else 192
     for j in range(parts):
         u.append((cfg, dict(part="rt", bound=rt_bound, j=j, parts=parts)))
     cparts = 16 if tier == "quick" else 64
@@ -134,17 +147,56 @@ def units(tier, seed):
     u.append((cfg, dict(part="wargs")))
     for mode in FS_MODES:
         u.append((cfg, dict(part="fs", mode=mode)))
+    # real EOP tables: epoch alphabet over leap-second and ordinary years, both halves; off-grid epochs
+    eparts = 4
+    for j in range(eparts):
+        u.append((CFG_REAL, dict(part="epochs", j=j, parts=eparts)))
+    u.append((CFG_REAL, dict(part="offgrid")))
+    # histories on one Tle object
+    depth = 4 if tier == "quick" else 5
+    hparts = 16 if tier == "quick" else 64
+    for j in range(hparts):
+        u.append((CFG_HIST, dict(part="hist", depth=depth, j=j, parts=hparts)))
     return u
+
+
+_CFG = {}
 
 
 def setup(config):
     import logging
+    import os
     from beyond.config import config as bc
+    from mc import engine
 
-    bc.update({"eop": {"missing_policy": "pass"}})
+    config = config or CFG
+    _CFG.clear()
+    _CFG.update(config)
+    if config.get("eop") == "real":
+        pole = os.path.join(engine.repo_path(), "tests", "data", "pole")
+        if not os.path.isdir(pole):
+            pole = "/repo/tests/data/pole"
+        bc.update({"eop": {"folder": pole, "type": "all", "missing_policy": "pass"}})
+        from beyond.dates.eop import EopDb
+
+        tai_utc = [EopDb.get(m).tai_utc for m in (56108.5, 56109.5)]  # 2012-06-30 / 2012-07-01
+        if tai_utc != [34, 35]:
+            raise RuntimeError(f"harness: real EOP tables not active (TAI-UTC around 2012-07-01: {tai_utc})")
+    else:
+        bc.update({"eop": {"missing_policy": "pass"}})
     # from_string(error="warn") logs through the library's logger: keep the workers' stderr quiet
     logging.getLogger("beyond").addHandler(logging.NullHandler())
     logging.getLogger("beyond").propagate = False
+    # warm-up of machinery not under test that initialises lazily (EOP entry points of Date, lazy imports), so that the
+    # forked children of the hist part do not pay for it and "pristine" means: no Tle / Orbit code has run
+    import _strptime  # noqa
+    import numpy  # noqa
+    from beyond.dates import Date
+    from beyond.io.tle import Tle  # noqa
+    from beyond.orbits import Orbit  # noqa
+    import beyond.propagators.sgp4  # noqa
+
+    Date(2000, 1, 1)
 
 
 def run_unit(p, t):
@@ -162,6 +214,14 @@ def run_unit(p, t):
     elif p["part"] == "wargs":
         for case in wargs_cases():
             check_wargs(case, t)
+    elif p["part"] == "epochs":
+        for j, ep in enumerate(epoch_alphabet()):
+            if j % p["parts"] == p["j"]:
+                check_rt([0] * NF, t, epoch=ep)
+    elif p["part"] == "hist":
+        for j, ops in enumerate(enum_histories(p["depth"])):
+            if j % p["parts"] == p["j"]:
+                check_history(dict(part="hist", ops=ops, config=CFG_HIST), t, isolate=True)
     elif p["part"] == "fs":
         for n in range(0, 4):
             for kinds in itertools.product(FS_KINDS, repeat=n):
@@ -170,7 +230,9 @@ def run_unit(p, t):
 
 def replay(case, t):
     if case["part"] == "rt":
-        check_rt(case["idx"], t)
+        check_rt(case["idx"], t, epoch=case.get("epoch"))
+    elif case["part"] == "hist":
+        check_history(case, t, isolate=False)
     elif case["part"] == "corrupt":
         check_corruption(case, t)
     elif case["part"] == "offgrid":
@@ -185,13 +247,39 @@ def replay(case, t):
 # rt: parse + round trip
 
 
-def build_text(idx):
+def build_text(idx, epoch=None):
     from mc.ref import tle_codec as tc
 
     f = {n: FIELDS[c][1][k][0] for c, (n, k) in enumerate(zip(NAMES, idx))}
+    if epoch is not None:
+        f["epoch"] = epoch
     name = f.pop("name")
     l1, l2 = tc.encode(f)
     return name, l1, l2
+
+
+def _epoch_cls(epoch):
+    y = 1900 + int(epoch[:2]) if int(epoch[:2]) >= 57 else 2000 + int(epoch[:2])
+    kind = "june-leap-second-year" if y in (1972, 1981, 1982, 1983, 1985, 1992, 1993, 1994, 1997, 2012, 2015) else \
+        "december-leap-second-year" if y in (1987, 1989, 1990, 1995, 1998, 2005, 2008, 2016) else "ordinary-year"
+    half = "second-half" if float(epoch[2:]) >= (183 if y % 4 == 0 else 182) else "first-half"
+    return f"{kind}/{half}"
+
+
+def epoch_alphabet():
+    """Epoch texts (real-EOP part): years with a leap second on 30 June, on 31 December, and without, each at the
+    first instant, in spring, on both sides of 30 June / 1 July, in autumn and at the last 1e-8 day of the year."""
+    june = [1981, 1982, 1983, 1985, 1992, 1993, 1994, 1997, 2012, 2015]
+    december = [1987, 1989, 1990, 1995, 1998, 2005, 2008, 2016]
+    none = [1984, 1986, 2000, 2010, 2014]
+    out = []
+    for y in june + december + none:
+        leap = y % 4 == 0
+        jul1 = 183 if leap else 182
+        for day in ("001.00000000", "100.51782528", "%03d.99999999" % (jul1 - 1), "%03d.00000000" % jul1, "%03d.00001158" % jul1,
+                    "200.51782528", "264.25000000", "%03d.99999999" % (366 if leap else 365)):
+            out.append("%02d%s" % (y % 100, day))
+    return out
 
 
 def _cls(idx, field):
@@ -207,18 +295,24 @@ def _rel(lib, exact):
     return abs(Fraction(float(lib)) - exact), REL_TOL * abs(exact)
 
 
-def check_rt(idx, t):
+def check_rt(idx, t, epoch=None):
     import numpy as np
     from mc.ref import tle_codec as tc
     from beyond.io.tle import Tle
 
-    name, l1, l2 = build_text(idx)
+    name, l1, l2 = build_text(idx, epoch)
     text = (name + "\n" if name is not None else "") + l1 + "\n" + l2
     canonical = all(FIELDS[c][1][k][2] for c, k in enumerate(idx))
-    case = dict(part="rt", idx=list(idx), text=text)
+    case = dict(part="rt", idx=list(idx), text=text, config=dict(_CFG))
+    if epoch is not None:
+        case["epoch"] = epoch
     dec = tc.decode(l1, l2)
+
+    def _c(field):
+        return _epoch_cls(epoch) if (field == "epoch" and epoch is not None) else _cls(idx, field)
+
     t.states_add(1)
-    t.ev(tuple(idx) if any(idx) else None)
+    t.ev((tuple(idx), epoch) if any(idx) or epoch else None)
 
     # ---- parse
     try:
@@ -227,13 +321,13 @@ def check_rt(idx, t):
     except Exception as e:
         dev = [n for n, k in zip(NAMES, idx) if k] or ["base"]
         for fld in dev:
-            t.fail(f"tle/parse-raises/{fld}/{_cls(idx, fld) if fld != 'base' else 'base'}", "a well-formed TLE is parsed", case, "Tle", repr(e))
+            t.fail(f"tle/parse-raises/{fld}/{_c(fld) if fld != 'base' else 'base'}", "a well-formed TLE is parsed", case, "Tle", repr(e))
         return
     bad = set()
 
     def mismatch(field, expected, observed, what="parsed field equals the printed value"):
         bad.add(field)
-        t.fail(f"tle/{FIELD_ATTR.get(field, field)}/{_cls(idx, field)}", what, case, expected, observed,
+        t.fail(f"tle/{FIELD_ATTR.get(field, field)}/{_c(field)}", what, case, expected, observed,
                f"field {field} = {FIELDS[NAMES.index(field)][1][idx[NAMES.index(field)]][0]!r}")
 
     # exact fields
@@ -295,7 +389,7 @@ def check_rt(idx, t):
     except Exception as e:
         dev = [n for n, k in zip(NAMES, idx) if k and n not in bad] or ["base"]
         for fld in dev:
-            t.fail(f"tle/write-raises/{fld}/{_cls(idx, fld) if fld != 'base' else 'base'}", "the orbit of a parsed TLE can be written back",
+            t.fail(f"tle/write-raises/{fld}/{_c(fld) if fld != 'base' else 'base'}", "the orbit of a parsed TLE can be written back",
                    case, text, repr(e))
         return
     lines = out.split("\n")
@@ -332,7 +426,7 @@ def check_rt(idx, t):
             reported = True  # same root cause as the parse mismatch already recorded
             continue
         reported = True
-        t.fail(f"tle/roundtrip/{FIELD_ATTR.get(fld, fld)}/{_cls(idx, fld)}", "from_orbit(tle.orbit()) preserves every field", case, text, out,
+        t.fail(f"tle/roundtrip/{FIELD_ATTR.get(fld, fld)}/{_c(fld)}", "from_orbit(tle.orbit()) preserves every field", case, text, out,
                f"field {fld}: in {_fieldtext(dec, fld)} out {_fieldtext(dec_out, fld)}")
     if not fields and canonical:
         # pure spelling difference on a canonical input: locate the columns
@@ -340,7 +434,7 @@ def check_rt(idx, t):
         if exp_lines == 3 and lines[0] != name:
             cols.append("name")
         for fld in sorted(set(cols)) or ["?"]:
-            t.fail(f"tle/roundtrip-spelling/{fld}/{_cls(idx, fld) if fld in NAMES else '-'}",
+            t.fail(f"tle/roundtrip-spelling/{fld}/{_c(fld) if fld in NAMES else '-'}",
                    "parse + write reproduces the identical lines (canonical spelling)", case, text, out)
         reported = True
     if not fields and not canonical:
@@ -451,9 +545,11 @@ OFF_FIELDS = {
     "e": (Fraction(1, 10 ** 7), ["0.0003381", "0.0000001", "0.9999998", "0.5"]),
     "n": (Fraction(1, 10 ** 8), ["15.54198229", "0.50000001", "16.99999998"]),
     "ndot": (Fraction(1, 10 ** 8), ["0.00003442", "-0.00001524", "0.99999998", "0.00000001"]),
-    "bstar": (None, ["0.58526e-4", "-0.12345e-5", "0.99999e-1", "0.10000e-9", "0.12345e+1"]),
-    "nddot": (None, ["0.12345e-5", "-0.12345e-5", "0.99999e-1"]),
-    "epoch": (Fraction(864), ["2016-05-03T13:20:47.630976", "1999-12-31T23:59:59.998272", "2000-01-01T00:00:00.000864"]),
+    "bstar": (None, ["0.58526e-4", "-0.12345e-5", "0.99999e-1", "0.10000e-9", "0.12345e+1", "-0.25000e+0", "-0.12345e+1", "-0.10000e+0"]),
+    "nddot": (None, ["0.12345e-5", "-0.12345e-5", "0.99999e-1", "-0.25000e+0", "-0.12345e+1"]),
+    "epoch": (Fraction(864), ["2016-05-03T13:20:47.630976", "1999-12-31T23:59:59.998272", "2000-01-01T00:00:00.000864",
+                              "2012-06-30T23:59:59.999136", "2012-07-01T00:00:00.000864", "2012-09-20T12:25:40.104192",
+                              "2015-12-31T23:59:59.998272", "1997-10-27T02:57:46.665792"]),
 }
 
 
@@ -462,7 +558,7 @@ def offgrid_cases():
     for fld, (unit, grid) in OFF_FIELDS.items():
         for g in grid:
             for d in [Fraction(0)] + OFF_DELTAS:
-                out.append(dict(part="offgrid", field=fld, grid=g, delta=[d.numerator, d.denominator]))
+                out.append(dict(part="offgrid", field=fld, grid=g, delta=[d.numerator, d.denominator], config=dict(_CFG)))
     return out
 
 
@@ -548,7 +644,7 @@ def check_offgrid(case, t):
             t.fail(f"tle/offgrid-parse-back/{nm}", "written TLE parses back to the same elements (printed precision)", case, six[k], back[k])
     ep_back = tc.datetime_us(w.epoch.datetime)
     if not t.margin("offgrid epoch parse-back error vs 0.5e-8 day", abs(ep_back - tc.datetime_us(epoch)), 432.0, case):
-        t.fail("tle/offgrid-parse-back/epoch", "written TLE parses back to the same epoch (1e-8 day)", case, str(epoch), str(w.epoch))
+        t.fail("tle/offgrid-parse-back/epoch/" + _CFG.get("eop", "pass") + "-eop", "written TLE parses back to the same epoch (1e-8 day)", case, str(epoch), str(w.epoch))
     t.outcome(("offgrid", fld, o == [e1, e2]))
     if delta == OFF_DELTAS[2]:
         t.sample(dict(case, written=o))
@@ -618,9 +714,223 @@ def check_wargs(case, t):
 
 
 # ---------------------------------------------------------------------------
+# hist: explicit-state search over operation histories on ONE Tle object
+
+H_SOURCES = ["ctor", "from_string"]
+H_OPS = ["orbit", "edit-form-dv", "edit-attrs", "edit-element", "write-last", "roundtrip", "inspect"]
+
+
+def enum_histories(depth):
+    """[source] + every sequence of 1..depth operations (edits / write-last need an orbit obtained before)."""
+
+    def rec(hist, have_orbit):
+        for op in H_OPS:
+            if op.startswith("edit") or op == "write-last":
+                if not have_orbit:
+                    continue
+            h2 = hist + [op]
+            yield h2
+            if len(h2) - 1 < depth:
+                yield from rec(h2, have_orbit or op == "orbit")
+
+    for src in H_SOURCES:
+        yield from rec([src], False)
+
+
+def _hist_valid(ops):
+    have = False
+    if not ops or ops[0] not in H_SOURCES or len(ops) < 2:
+        return False
+    for op in ops[1:]:
+        if (op.startswith("edit") or op == "write-last") and not have:
+            return False
+        have = have or op == "orbit"
+    return True
+
+
+def _tle_fields(tle):
+    return [tle.name, tle.text, str(tle), tle.norad_id, tle.classification, tle.cospar_id, str(tle.epoch), float(tle.ndot), float(tle.ndotdot),
+            float(tle.bstar), tle.element_nb, tle.revolutions, tle.type, float(tle.i), float(tle.Ω), float(tle.e), float(tle.ω),
+            float(tle.M), float(tle.n)]
+
+
+def _orbit_snapshot(o):
+    import numpy as np
+
+    d = o._data
+    return [[float(c) for c in np.array(o, dtype=float)], o.form.name, getattr(o.frame, "name", str(o.frame)), str(o.date)] + \
+        [repr(d.get(k)) for k in ("bstar", "ndot", "ndotdot", "name", "cospar_id", "norad_id", "element_nb", "revolutions", "type")]
+
+
+def exec_history(arg):
+    """Run in the pristine library state.  Returns the list of invariant violations [(signature tail, clause, expected, observed)]
+    found at the END of the history (every prefix is a history of its own)."""
+    import numpy as np
+    from beyond.io.tle import Tle
+
+    ops, text, multi = arg["ops"], arg["text"], arg["multi"]
+    out = []
+    try:
+        if ops[0] == "ctor":
+            T = Tle(text)
+        else:
+            T = list(Tle.from_string(multi, error="raise"))[1]  # the middle entry of a three-entry text
+        fields0 = _tle_fields(T)
+        if T.name + "\n" + T.text != text and T.text != text:
+            out.append(("source-text", "the Tle carries the text it was built from", text, str(T)))
+        orbs = []  # [object, snapshot, edited?]
+        for n_op, op in enumerate(ops[1:], 1):
+            if op == "orbit":
+                o = T.orbit()
+                if any(o is x[0] for x in orbs):
+                    out.append(("orbit-aliased", "every Tle.orbit() call returns a new Orbit object", "a new object",
+                                f"the object returned earlier (operation #{n_op})"))
+                else:
+                    orbs.append([o, _orbit_snapshot(o), False])
+            elif op == "edit-form-dv":
+                o = orbs[-1][0]
+                o.form = "cartesian"
+                o[3:] = np.array(o[3:], dtype=float) + np.array([10.0, -5.0, 2.0])
+                orbs[-1][1:] = [_orbit_snapshot(o), True]
+            elif op == "edit-attrs":
+                o = orbs[-1][0]
+                o.bstar = 1.5e-3
+                o.revolutions = 5
+                o.name = "EDITED"
+                orbs[-1][1:] = [_orbit_snapshot(o), True]
+            elif op == "edit-element":
+                o = orbs[-1][0]
+                o[0] = float(o[0]) * 1.001 + 1e-3
+                orbs[-1][1:] = [_orbit_snapshot(o), True]
+            elif op == "write-last":
+                w = Tle.from_orbit(orbs[-1][0])
+                if not orbs[-1][2] and str(w) != text:
+                    out.append(("write-last", "writing back an unedited orbit of the Tle reproduces its text", text, str(w)))
+            elif op == "roundtrip":
+                w = Tle.from_orbit(T.orbit())
+                if str(w) != text:
+                    out.append(("roundtrip", "Tle.from_orbit(tle.orbit()) reproduces the text of the Tle, whatever was done to orbits obtained earlier",
+                                text, str(w)))
+            elif op == "inspect":
+                pass
+        # invariants at the end
+        if _tle_fields(T) != fields0:
+            out.append(("tle-changed", "text and fields of a Tle never change", fields0, _tle_fields(T)))
+        o = T.orbit()
+        snap = _orbit_snapshot(o)
+        expected6 = [float(T.i), float(T.Ω), float(T.e), float(T.ω), float(T.M), float(T.n)]
+        exp_data = [repr(x) for x in (T.bstar, T.ndot, T.ndotdot, T.name, T.cospar_id, T.norad_id, T.element_nb, T.revolutions, T.type)]
+        if snap[0] != expected6 or snap[1] != "tle" or snap[2] != "TEME" or snap[3] != str(T.epoch) or snap[4:] != exp_data:
+            out.append(("orbit-not-parsed-fields", "Tle.orbit() carries the parsed fields (TLE form, TEME, epoch, drag terms, identifiers)",
+                        [expected6, "tle", "TEME", str(T.epoch)] + exp_data, snap))
+        if any(o is x[0] for x in orbs):
+            out.append(("orbit-aliased", "every Tle.orbit() call returns a new Orbit object", "a new object", "an object returned earlier"))
+        for x, sn, _ in orbs:
+            if _orbit_snapshot(x) != sn:
+                out.append(("returned-orbit-changed", "an Orbit never changes after it has been returned (other than by its holder)", sn,
+                            _orbit_snapshot(x)))
+    except Exception as e:
+        import traceback
+
+        out.append(("raises-" + type(e).__name__, "every operation of the history succeeds", "no exception", repr(e) + traceback.format_exc()[-600:]))
+    return out
+
+
+def run_isolated(func, arg):
+    """func(arg) in a forked child (pristine copy of this process); JSON result through a pipe."""
+    import json
+    import os
+    import traceback
+
+    r, w = os.pipe()
+    pid = os.fork()
+    if pid == 0:
+        try:
+            os.close(r)
+            try:
+                data = json.dumps(dict(result=func(arg)), default=repr)
+            except BaseException:
+                data = json.dumps(dict(harness_error=traceback.format_exc()))
+            with os.fdopen(w, "w") as f:
+                f.write(data)
+        finally:
+            os._exit(0)
+    os.close(w)
+    with os.fdopen(r) as f:
+        data = f.read()
+    os.waitpid(pid, 0)
+    out = json.loads(data)
+    if "harness_error" in out:
+        raise RuntimeError("history child failed:\n" + out["harness_error"])
+    return out["result"]
+
+
+def _hist_texts():
+    name, l1, l2 = build_text([0] * (NF - 1) + [1])  # base element set with the plain name line
+    text = name + "\n" + l1 + "\n" + l2
+    a = build_text([1] + [0] * (NF - 1))[1:]
+    c = build_text([2] + [0] * (NF - 1))[1:]
+    multi = "%s\n%s\n%s\nLAST\n%s\n%s" % (a[0], a[1], text, c[0], c[1])
+    return text, multi
+
+
+def _history_once(case, t, isolate):
+    ops = list(case["ops"])
+    text, multi = _hist_texts()
+    arg = dict(ops=ops, text=text, multi=multi)
+    found = run_isolated(exec_history, arg) if isolate else json_roundtrip(exec_history(arg))
+    t.trans(len(ops))
+    t.states_add(1)
+    t.ev(tuple(ops) if len(ops) >= 3 else None)
+    edited = any(o.startswith("edit") for o in ops)
+    cls = "after-in-place-edit" if edited else "no-edit"
+    for tail, clause, expected, observed in found:
+        t.fail(f"tle/history/{tail}/{cls}", clause, dict(case, ops=ops, text=text), expected, observed, f"history {ops}")
+    t.outcome(("hist", ops[0], cls, len(found) == 0))
+    if len(ops) == 4 and edited and len(t.samples) < 2:
+        t.sample(dict(part="hist", ops=ops))
+
+
+def json_roundtrip(x):
+    import json
+
+    return json.loads(json.dumps(x, default=repr))
+
+
+def check_history(case, t, isolate):
+    """One history; a failing one is shrunk (greedy removal of operations, each candidate from the pristine state)."""
+    from mc.engine import Tally, MAX_FAILS_PER_SIG
+
+    if not isolate:
+        _history_once(case, t, False)
+        return
+    probe = Tally()
+    _history_once(case, probe, True)
+    if probe.failures:
+        sig = probe.failures[0]["signature"]
+        if t.fail_counts.get(sig, 0) < MAX_FAILS_PER_SIG:
+            ops = list(case["ops"])
+            changed = True
+            while changed:
+                changed = False
+                for k in range(1, len(ops)):
+                    cand = ops[:k] + ops[k + 1:]
+                    if not _hist_valid(cand):
+                        continue
+                    trial = Tally()
+                    _history_once(dict(case, ops=cand), trial, True)
+                    hit = [f for f in trial.failures if f["signature"] == sig]
+                    if hit:
+                        ops, changed = cand, True
+                        probe.failures = hit[:1] + [f for f in probe.failures if f["signature"] != sig]
+                        break
+    t.merge(probe)
+
+
+# ---------------------------------------------------------------------------
 # fs: from_string on multi-entry texts
 
-FS_KINDS = ["V2", "V3", "V0", "Bc1", "Bc2", "Bl1", "Bl2", "B3", "C", "K"]
+FS_KINDS = ["V2", "V3", "V0", "Vn", "Bc1", "Bc2", "Bl1", "Bl2", "B3", "C", "K"]
 FS_MODES = ["ignore", "warn", "raise"]
 _FS = {}
 
@@ -632,6 +942,10 @@ def _fs_entries():
     b = build_text([1] + [0] * (NF - 1))[1:]
     c = build_text([2] + [0] * (NF - 1))[1:]
     d = build_text([0, 1] + [0] * (NF - 2))[1:]
+    ib = NAMES.index("bstar")
+    neg = [0] * NF
+    neg[ib] = [v[0] for v in FIELDS[ib][1]].index("-25000+0")
+    n_ = build_text(neg)[1:]  # valid entry whose B* has a negative mantissa and a '+' exponent
 
     def flip(line):  # wrong checksum digit
         return line[:68] + str((int(line[68]) + 1) % 10)
@@ -640,6 +954,7 @@ def _fs_entries():
         V2=(["%s\n%s" % a], [("", a[0], a[1])]),
         V3=(["NAME B\n%s\n%s" % b], [("NAME B", b[0], b[1])]),
         V0=(["0 NAME C\n%s\n%s" % c], [("NAME C", c[0], c[1])]),
+        Vn=(["%s\n%s" % n_], [("", n_[0], n_[1])]),
         Bc1=(["%s\n%s" % (flip(d[0]), d[1])], None),
         Bc2=(["%s\n%s" % (d[0], flip(d[1]))], None),
         Bl1=(["%s\n%s" % (d[0][:68], d[1])], None),
